@@ -87,10 +87,10 @@ Fixpoint skip_ws (l : str) : str :=
   | [] => []
   end.
 
-(* skipComment: to the end of the line (or a NUL, or the end), then white space *)
+(* skipComment: to the end of the line (or the end of the input), then white space *)
 Fixpoint skip_line (l : str) : str :=
   match l with
-  | c :: l' => if (c =? 10) || (c =? 0) then l else skip_line l'
+  | c :: l' => if c =? 10 then l else skip_line l'
   | [] => []
   end.
 
@@ -122,8 +122,7 @@ Fixpoint read_string (fuel : nat) (delim : N) (l : str) (acc : str) : option str
       match l1 with
       | [] => (None, l1)
       | c :: _ =>
-          if c =? 0 then (None, l1)
-          else if c =? delim then (Some (rev acc), l1)
+          if c =? delim then (Some (rev acc), l1)
           else if c =? 92 then                 (* backslash *)
             if peek l1 =? 10 then read_string f delim (adv l1) acc   (* continuation *)
             else
@@ -131,7 +130,6 @@ Fixpoint read_string (fuel : nat) (delim : N) (l : str) (acc : str) : option str
               match l2 with
               | [] => (None, l2)
               | e :: _ =>
-                  if e =? 0 then (None, l2) else
                   let e' := if e =? 110 then 10 else if e =? 114 then 13
                             else if e =? 116 then 9 else e in
                   read_string f delim l2 (e' :: acc)
@@ -161,8 +159,7 @@ Fixpoint read_regexp (fuel : nat) (l : str) (acc : str) : option str * str :=
       match l1 with
       | [] => (None, l1)
       | c :: _ =>
-          if c =? 0 then (None, l1)
-          else if c =? 47 then
+          if c =? 47 then
             let '(flags, l2) := collect_flags (adv l1) [] in
             if flags_ok flags then
               let body := rev acc in
